@@ -63,6 +63,126 @@ func isReplayOrRestore(f *types.Func) bool {
 	return false
 }
 
+// isReplayOrRestore, with the helpers that were extracted out of the recovery functions: an unexported function whose
+// every static caller in the module is (transitively) a recovery function is part of the recovery.
+func (w *World) isReplayOrRestore(f *types.Func) bool {
+	if isReplayOrRestore(f) {
+		return true
+	}
+	fn := w.SSAFunc(f)
+	if fn == nil || f.Exported() {
+		return false
+	}
+	seen := map[*ssa.Function]bool{}
+	var all func(g *ssa.Function, depth int) bool
+	all = func(g *ssa.Function, depth int) bool {
+		if depth > 3 || seen[g] {
+			return false
+		}
+		seen[g] = true
+		callers := w.staticCallersOf(g)
+		if len(callers) == 0 {
+			return false
+		}
+		for c := range callers {
+			for c.Parent() != nil {
+				c = c.Parent()
+			}
+			co, _ := c.Object().(*types.Func)
+			if co == nil {
+				return false
+			}
+			if isReplayOrRestore(co) {
+				continue
+			}
+			if co.Exported() || !all(c, depth+1) {
+				return false
+			}
+		}
+		return true
+	}
+	return all(fn, 0)
+}
+
+// staticCallersOf: the module functions (or function literals) that call fn statically. A function whose value is
+// taken anywhere (stored, passed) gets the pseudo caller nil-free marker "escapes" by returning an extra, exported-looking
+// caller is not needed: extractedHelpers and isReplayOrRestore only ask for unexported direct callees.
+func (w *World) staticCallersOf(fn *ssa.Function) map[*ssa.Function]bool {
+	if w.callers == nil {
+		w.callers = map[*ssa.Function]map[*ssa.Function]bool{}
+		for _, fi := range w.ModuleFuncs() {
+			top := w.SSAFunc(fi.Obj)
+			if top == nil {
+				continue
+			}
+			for _, f := range append([]*ssa.Function{top}, closuresOf(top)...) {
+				for _, b := range f.Blocks {
+					for _, in := range b.Instrs {
+						cc := callCommon(in)
+						if cc == nil {
+							continue
+						}
+						if g := cc.StaticCallee(); g != nil {
+							if w.callers[g] == nil {
+								w.callers[g] = map[*ssa.Function]bool{}
+							}
+							w.callers[g][f] = true
+						}
+					}
+				}
+			}
+		}
+	}
+	return w.callers[fn]
+}
+
+// extractedHelpers: the unexported functions of fn's own package that fn (or a function literal of it) calls statically
+// and that nobody else calls — blocks that a clean-up commit moved out of fn. Rules that read "what fn does" read them
+// as part of fn. Two levels.
+func (w *World) extractedHelpers(fn *ssa.Function) []*ssa.Function {
+	var out []*ssa.Function
+	seen := map[*ssa.Function]bool{fn: true}
+	var rec func(f *ssa.Function, depth int)
+	rec = func(f *ssa.Function, depth int) {
+		for _, g := range append([]*ssa.Function{f}, closuresOf(f)...) {
+			for _, b := range g.Blocks {
+				for _, in := range b.Instrs {
+					cc := callCommon(in)
+					if cc == nil {
+						continue
+					}
+					h := cc.StaticCallee()
+					if h == nil || seen[h] || h.Pkg != fn.Pkg || len(h.Blocks) == 0 || h.Parent() != nil {
+						continue
+					}
+					if o, _ := h.Object().(*types.Func); o == nil || o.Exported() {
+						continue
+					}
+					only := true
+					for c := range w.staticCallersOf(h) {
+						for c.Parent() != nil {
+							c = c.Parent()
+						}
+						if c != fn && !seen[c] {
+							only = false
+						}
+					}
+					if !only {
+						continue
+					}
+					seen[h] = true
+					out = append(out, h)
+					if depth < 1 {
+						rec(h, depth+1)
+					}
+				}
+			}
+		}
+	}
+	rec(fn, 0)
+	return out
+}
+
 type sinkCall struct {
 	fi   *FuncInfo
 	fn   *ssa.Function // function or closure containing the call
@@ -180,7 +300,7 @@ func ruleJRN12(w *World, r *Report, scope func(sc sinkCall) bool) {
 			continue
 		}
 		r.Ok("JRN-2", key, w.Pos(sc.call.Pos()), "called from the journaling layer")
-		if isReplayOrRestore(sc.fi.Obj) {
+		if w.isReplayOrRestore(sc.fi.Obj) {
 			r.Ok("JRN-1", key, w.Pos(sc.call.Pos()), "recovery code (applies the journal itself)")
 			continue
 		}
@@ -300,7 +420,7 @@ func ruleJRN3(w *World, r *Report) {
 	}
 	var ops []*FuncInfo
 	for _, fi := range w.ModuleFuncs() {
-		if relPkg(fi.Obj) != "pkg/engine" || isReplayOrRestore(fi.Obj) {
+		if relPkg(fi.Obj) != "pkg/engine" || w.isReplayOrRestore(fi.Obj) {
 			continue
 		}
 		sig := fi.Obj.Type().(*types.Signature)
@@ -727,7 +847,7 @@ func ruleEFFcomposite(w *World, r *Report) {
 	}
 	n := 0
 	for _, fi := range w.ModuleFuncs() {
-		if relPkg(fi.Obj) != "pkg/engine" || ops[fi.Obj] || isReplayOrRestore(fi.Obj) {
+		if relPkg(fi.Obj) != "pkg/engine" || ops[fi.Obj] || w.isReplayOrRestore(fi.Obj) {
 			continue
 		}
 		sig := fi.Obj.Type().(*types.Signature)
